@@ -213,6 +213,19 @@ CHECKS = {
              "regex semantics T-RE; bottom-up callback order T-LARK.",
         technique="contract-based deductive verification: declaration-shape and sort obligations on symbolic templates, symbolic "
                   "counters (LIA), fold invariants, string/regex verification conditions (z3 seq + cvc5), ground corpus obligations"),
+    "C16": dict(
+        category="proof",
+        text="Layout equivalence as a lemma over contracts of the real code: fbody composes READ++EXEC++WRITE++final resp. "
+             "READ++statements++final (fold shapes; the per-block folds over tables of any size are C12's invariants); read texts "
+             "denote the same value for every read history (variable or DUP of it, symbolic counters); get_exec_op_list returns "
+             "exactly the reachable executable pures; every node a callback creates is registered; a quantified coverage lemma "
+             "(z3, uninterpreted node sort) concludes that both layouts initialise every node the final sequence reaches; only "
+             "fbody/emit_final_seq_return read code_format (package scan), so IR and attributes are layout independent.",
+        design_ref="DESIGN.md section 3, C16",
+        note=TRUST + "den(DUP t) = den t and irrelevance of initialiser order under declare-before-use (T-RZIL, C11); the conclusion "
+             "'equal den of instruction_sequence' is a metatheoretic composition (T-IND) of the discharged clauses.",
+        technique="contract-based deductive verification: fold-shape postconditions, symbolic read counters, structural contract of "
+                  "get_exec_op_list, registration postconditions of callbacks, quantified set lemma discharged by z3"),
 }
 
 NOT_APPLICABLE = {
